@@ -1889,10 +1889,19 @@ func (g *gen) sNameForms(fc *fctx) []Stmt {
 			names = append(names, c)
 			rest = append(rest, Var{a})
 		}
+		single := g.ch(3) == 0
+		if single {
+			// `local a = function ... a ... end`: one name, one function - the name is still not in scope inside it
+			g.use("local_name_is_function_mentioning_the_name")
+			names, rest = []string{a}, nil
+		}
 		probe := []Stmt{
 			&Call{Names: []string{r1}, Fn: Var{a}},
 			&Call{Names: []string{r2}, Fn: Var{a}},
 			&Call{Fn: Var{"emit"}, Args: []Expr{Str{"llf"}, Var{r1}, Var{r2}, Var{b}}},
+		}
+		if single {
+			probe[2] = &Call{Fn: Var{"emit"}, Args: []Expr{Str{"llf"}, Var{r1}, Var{r2}}}
 		}
 		inner := append([]Stmt{&Local{Names: names, Exprs: append([]Expr{Func{fd}}, rest...)}}, probe...)
 		var out []Stmt
